@@ -28,7 +28,7 @@ import (
 func init() {
 	register(stream{
 		name: "token",
-		rule: "envelopes built by the harness itself (go-ipld-prime + libp2p, not go-ucan's envelope code) and offered to token.FromSealed / delegation.FromSealed / invocation.FromSealed and the DAG-JSON equivalents: (fields) every payload field of a valid delegation and invocation × {dropped, null, retyped to each IPLD kind, out-of-range, empty, malformed DID/command/policy/selector/pattern, short nonce} and an added unknown key, each CORRECTLY RE-SIGNED; (envelope) wrong, foreign or missing varsig header, extra SigPayload entry, extra outer element, swapped and unknown tags, signature by another key, truncated/empty/non-bytes signature, every payload field and the varsig header rewritten while KEEPING THE OLD SIGNATURE (after the genuine token was decoded), header variants with foreign hash/encoding/segments, a genuine and a forged token decoded from 8 goroutines at once; (bits) every single-bit flip of a sealed Ed25519 delegation and invocation; (values) every Go integer type at its boundary values through literal.Any (directly and nested), args.Add and meta.Add — stored exactly or rejected; (roundtrip) tokens from the constructors under every option combination × Ed25519/secp256k1/P-256/P-384/P-521 (RSA thorough) × {DAG-CBOR, DAG-JSON} × {generic, typed}. Compared: accept/reject and every decoded field. Added later: signatures of 257…65537 bytes (junk, padded, doubled); int64 extremes and pre-1970 instants in policy, arguments, metadata and time fields; round-trip option bits for instants at year 1/1000/1969, audience = subject and floats without fraction (the last is the open finding F-C07-dagjson-integral-float, in a class of its own); stream reads right after failed stream reads; a token naming issuer A but signed by B decoded while A's and B's keys are extracted concurrently (rounds bounded by time); ready-made IPLD nodes with out-of-range integers alone, in IPLD containers and in Go containers through Args.Add / literal.Any / WithArgument / WithMeta (kept ⇒ in range; seals ⇒ unseals); constructor well-formedness under unusual nonce options; command text assembled by New/Join stays refused, valid commands with empty segments are kept byte for byte. For EVERY key algorithm (RSA included) at every tier: signature of another key, empty, truncated, one-byte, junk and all-zero signatures, the genuine signature over a changed field, an empty varsig header, and a signature made over a non-canonical serialization that is shipped as such; the FromDagCbor / FromDagCborReader entry points (no canonical-form check of their own) on the same bytes; instants exactly at the Unix epoch in round trips. Round trips of an expiration in the last half second of the representable range and of argument sets merged twice over an earlier key. Non-trivial = all but the unmodified fixtures. Distinct = distinct protocol lines.",
+		rule: "envelopes built by the harness itself (go-ipld-prime + libp2p, not go-ucan's envelope code) and offered to token.FromSealed / delegation.FromSealed / invocation.FromSealed and the DAG-JSON equivalents: (fields) every payload field of a valid delegation and invocation × {dropped, null, retyped to each IPLD kind, out-of-range, empty, malformed DID/command/policy/selector/pattern, short nonce} and an added unknown key, each CORRECTLY RE-SIGNED; (envelope) wrong, foreign or missing varsig header, extra SigPayload entry, extra outer element, swapped and unknown tags, signature by another key, truncated/empty/non-bytes signature, every payload field and the varsig header rewritten while KEEPING THE OLD SIGNATURE (after the genuine token was decoded), header variants with foreign hash/encoding/segments, a genuine and a forged token decoded from 8 goroutines at once; (bits) every single-bit flip of a sealed Ed25519 delegation and invocation; (values) every Go integer type at its boundary values through literal.Any (directly and nested), args.Add and meta.Add — stored exactly or rejected; (roundtrip) tokens from the constructors under every option combination × Ed25519/secp256k1/P-256/P-384/P-521 (RSA thorough) × {DAG-CBOR, DAG-JSON} × {generic, typed}. Compared: accept/reject and every decoded field. Added later: signatures of 257…65537 bytes (junk, padded, doubled); int64 extremes and pre-1970 instants in policy, arguments, metadata and time fields; round-trip option bits for instants at year 1/1000/1969, audience = subject and floats without fraction (the last is the open finding F-C07-dagjson-integral-float, in a class of its own); stream reads right after failed stream reads; a token naming issuer A but signed by B decoded while A's and B's keys are extracted concurrently (rounds bounded by time); ready-made IPLD nodes with out-of-range integers alone, in IPLD containers and in Go containers through Args.Add / literal.Any / WithArgument / WithMeta (kept ⇒ in range; seals ⇒ unseals); constructor well-formedness under unusual nonce options; command text assembled by New/Join stays refused, valid commands with empty segments are kept byte for byte. For EVERY key algorithm (RSA included) at every tier: signature of another key, empty, truncated, one-byte, junk and all-zero signatures, the genuine signature over a changed field, an empty varsig header, and a signature made over a non-canonical serialization that is shipped as such; the FromDagCbor / FromDagCborReader entry points (no canonical-form check of their own) on the same bytes; instants exactly at the Unix epoch in round trips. Round trips of an expiration in the last half second of the representable range and of argument sets merged twice over an earlier key. The well-formed varsig header of every OTHER supported key type in place of the issuer's, with the old signature and re-signed. Tokens built from a shared argument set answer GetNode for exactly their own arguments and their unsealed arguments Equal the original's. Commands held as converted strings or joined text (never parsed) come back from every decoder as they were sealed. delegation.Root with a WithSubject among the options (any position, undefined / foreign subject) returns a root token whose subject is its issuer. Non-trivial = all but the unmodified fixtures. Distinct = distinct protocol lines.",
 		run:  runTokenStream,
 		eval: evalToken,
 		cmp: func(line, g, m string) string {
@@ -598,10 +598,17 @@ func runTokenStream(c *ctx) error {
 				}
 			}
 			h0 := varsigHex[alg]
-			for name, hv := range map[string]string{
+			hdrVariants := map[string]string{
 				"dagjson": h0[:len(h0)-2] + "a902", "raw": h0[:len(h0)-2] + "55", "extra-segment": h0 + "71", "dropped-segment": h0[:len(h0)-2],
 				"sha512": strings.Replace(h0, "12", "13", 1), "prefix-only": "34",
-			} {
+			}
+			// the well-formed header of EVERY OTHER supported key type (a header that is merely "known" is not the issuer's)
+			for oa, oh := range varsigHex {
+				if oh != h0 {
+					hdrVariants["of-"+oa] = oh
+				}
+			}
+			for name, hv := range hdrVariants {
 				sp := "m(68:b" + hv + "," + kind.tag + ":" + payloadText(kind.fs) + ")"
 				if b, err := sealText(sp, k.priv, keepSig, ""); err == nil {
 					c.emitSealed(all, b, "envelope:hdr-old-sig:"+name)
@@ -639,6 +646,7 @@ func runTokenStream(c *ctx) error {
 	// the same two checks again under the round-trip class: "seals but does not unseal" is a C07 matter as well
 	c.emit("go.lit.nodes 1", "token.roundtrip-nodes", true, "literal-nodes")
 	c.emit("go.ctor.wf 1", "token.roundtrip-ctor", true, "ctor-wellformed")
+	c.emit("go.cmd.history 1", "token.roundtrip-cmd", true, "cmd-history")
 	// several tokens built from ONE argument set (n keys) handed to WithArguments, each with an argument of its own
 	// added afterwards, the shared set growing in between: each token seals and unseals with exactly its own arguments
 	for n := 0; n <= 9; n++ {
@@ -1295,6 +1303,21 @@ func tokSharedArgs(n int) (out string) {
 			if fmt.Sprint(got) != fmt.Sprint(exp) {
 				return fmt.Sprintf("token %d (%s) carries %v, built with %v", j, name, got, exp)
 			}
+			// looked up by name: its own arguments are there, those of the other tokens and the caller's later one are not
+			for key := range exp {
+				if _, err := tk.Arguments().GetNode(key); err != nil {
+					return fmt.Sprintf("token %d (%s): GetNode(%q): %v", j, name, key, err)
+				}
+			}
+			for _, foreign := range []string{fmt.Sprintf("own%d", (j+1)%3), fmt.Sprintf("own%d", (j+2)%3), "later"} {
+				if v, err := tk.Arguments().GetNode(foreign); err == nil && v != nil {
+					return fmt.Sprintf("token %d (%s) answers GetNode(%q), an argument it was not built with", j, name, foreign)
+				}
+			}
+		}
+		// the unsealed token's arguments equal the original's (both directions)
+		if !t.Arguments().Equals(back.Arguments()) || !back.Arguments().Equals(t.Arguments()) {
+			return fmt.Sprintf("token %d: the unsealed token's arguments do not equal the original's", j)
 		}
 	}
 	return "ok"
